@@ -32,6 +32,10 @@ pub(crate) mod c11;
 #[path = "/verif/harness/d/c20.rs"]
 pub(crate) mod c20;
 
+#[cfg(osrg_rustybgp_verif_shuttle)]
+#[path = "/verif/harness/s/c18s.rs"]
+pub(crate) mod c18s;
+
 use vcore::{BatchPlan, Check};
 
 /// Guarded replacement of `event::enable_active_connect`: the same retry loop, connecting through
@@ -74,6 +78,16 @@ fn plan(property: &str) -> BatchPlan {
     }
 }
 
+/// Tier S build (`--cfg osrg_rustybgp_verif_shuttle`): the shard locks are shuttle's, so only the
+/// shuttle scenarios can run in this binary.
+#[cfg(osrg_rustybgp_verif_shuttle)]
+pub(crate) fn verif_main(args: &[String]) -> i32 {
+    let c18s = c18s::SubscribeInterleavings;
+    let checks: Vec<&dyn Check> = vec![&c18s];
+    vcore::main_with(&checks, &|_p: &str| BatchPlan { quick_runs: 30_000, thorough_runs: 3_000_000 }, args)
+}
+
+#[cfg(not(osrg_rustybgp_verif_shuttle))]
 pub(crate) fn verif_main(args: &[String]) -> i32 {
     let c08 = c08::HoldTimers;
     let c01 = c01::Convergence;
